@@ -9,76 +9,101 @@ COMMON_ASSUME = ("trusted base: govc's SSA->SMT translation (DESIGN.md section 3
  "A-INT (mathematical integers), A-BYTE (SMT character = byte); ")
 
 # id -> (claimed?, level text, level note, not_decided list, technique)
+TECH = "contract-based deductive verification (own VC generator over go/ssa, SMT)"
 P = {
 "C01": (True,
- "Deductive proof, for all templates and requests, that the CurlyRouter's path matcher admits exactly the requests the template admits (literal, regex, suffix, verb, tail wildcard, segment count), that Accept/Content-Type admission equals the declarative header oracle, that selectRoutes returns exactly the admitted routes, and that dispatch calls functions only on selected routes; discharged per obligation by SMT.",
- COMMON_ASSUME + "A-VERB (meaning of the custom-verb regular expressions), regexp.MatchString uninterpreted, A-SORT, A-CB/A-PURE for callbacks; interface contract of RouteSelector assumed at the dispatch call site.",
- ["RouterJSR311 path matching (semantics of compiled template expressions, A-JSR)", "detectRoute's staged elimination is not yet under a functional contract"],
- "contract-based deductive verification (own VC generator over go/ssa, SMT)"),
+ "Deductive proof, for all templates and requests, that the CurlyRouter's path matcher admits exactly the requests the template admits (literal, regex, {v}suffix, custom verb, tail wildcard, segment count), that Accept/Content-Type admission (Route.matchesAccept/matchesContentType) equals the declarative header oracle, that selectRoutes returns exactly the admitted routes, that RouterJSR311.detectRoute (shared by both routers) only returns a candidate that passes method, Content-Type and Accept, that CurlyRouter.SelectRoute meets the RouteSelector interface contract, and that dispatch calls a route function only on the selected, admitted route.",
+ COMMON_ASSUME + "A-VERB (meaning of the three custom-verb regular expressions; bounded stand-in over a string pool on every run, labelled bounded), regexp.MatchString uninterpreted, A-SORT, A-CB/A-PURE for callbacks; the RouteSelector interface contract is proved for CurlyRouter and assumed for RouterJSR311.",
+ ["RouterJSR311 path matching (meaning of compiled template expressions, A-JSR)", "what net/http does before dispatch (ServeMux pattern choice)"],
+ TECH),
 "C02": (True,
- "Deductive proof of totality (no nil dereference, index, slice-bounds, type-assertion or nil-map panic) for the functions on the Curly dispatch path under their preconditions, of the functional contracts of computeWebserviceScore/detectWebService (best root, regex roots only claim matching URLs) and of dispatch's lock balance and panic containment.",
+ "Deductive proof of totality (no nil dereference, index, slice-bounds, type-assertion or nil-map panic) for the functions on the Curly dispatch path under their stated preconditions, of computeWebserviceScore/detectWebService (best root; regex roots claim only URLs they match), of detectRoute's error statuses (405 carries an Allow list that is sound and duplicate-free), of sortedMimes/insertMime totality, and of dispatch's lock balance and panic containment.",
  COMMON_ASSUME + "A-VERB, regexp uninterpreted, A-CB, interface contracts of RouteSelector/PathProcessor assumed at call sites.",
- ["exactness of 404/405/415/406 (detectRoute not yet under functional contract)", "RouterJSR311", "what net/http does before and after dispatch"],
- "contract-based deductive verification (own VC generator over go/ssa, SMT)"),
+ ["completeness of the 405 Allow list and exact 404/415/406 precedence (the quantifier alternation after append is not discharged)", "RouterJSR311 path stage", "what net/http does before and after dispatch"],
+ TECH),
 "C03": (True,
- "Deductive proof that both ranking comparators equal their lexicographic key specs, that the key order is a strict weak order (lemma), that selectRoutes returns candidates sorted by it, that detectWebService computes the arg-max of the root score and first among equals (inductive lemma).",
+ "Deductive proof that the Curly ranking comparator equals its lexicographic key spec, that the key order is a strict weak order (lemma C03.curly-less-swo), that selectRoutes returns the admitted candidates sorted by it, and that detectWebService computes the arg-max of the root score, first among equals (inductive lemma C03.service-argmax).",
  COMMON_ASSUME + "A-SORT (sort.Sort permutes and orders by Less).",
- ["registration-order independence for equal root scores (D10, known finding candidate)", "RouterJSR311 ranking"],
- "contract-based deductive verification (own VC generator over go/ssa, SMT), inductive lemmas"),
+ ["registration-order independence when different root shapes score equal (D10, documented finding, not a check)", "RouterJSR311 ranking"],
+ TECH + ", inductive lemmas"),
 "C04": (True,
- "Deductive proof that tokenizePath yields the token sequence of the path, that untokenizePath joins the remaining tokens with '/', with the matcher contracts that establish the preconditions.",
- COMMON_ASSUME + "models of strings.Split/Trim as recursive definitions.",
- ["defaultPathProcessor.ExtractParameters functional contract (map contents) not yet discharged", "RouterJSR311.ExtractParameters (A-JSR)"],
- "contract-based deductive verification (own VC generator over go/ssa, SMT)"),
+ "Deductive proof that tokenizePath yields the token sequence of the path, that untokenizePath joins the remaining tokens with '/', that defaultPathProcessor.ExtractParameters is total on every admitted (route, path) pair, that concatPath/postBuild/Build produce a route whose tokens are the tokens of root+sub-path, and that dispatch hands the extracted parameters of the selected route to the request.",
+ COMMON_ASSUME + "models of strings.Split/Trim as recursive definitions; newPathExpression/nameOfFunction trusted (total).",
+ ["exact map contents produced by ExtractParameters (safety and frame only)", "RouterJSR311.ExtractParameters (A-JSR)"],
+ TECH),
 "C06": (True,
- "Deductive proof of FilterChain.ProcessFilter's contract (exactly one dynamic call: the filter at the old index with index advanced first, or the target once filters are exhausted; same request/response passed) including exceptional exits, and of dispatch's use of it.",
+ "Deductive proof of FilterChain.ProcessFilter's contract (exactly one dynamic call: the filter at the old index with the index advanced first, or the target once filters are exhausted; same request/response passed) including exceptional exits, of dispatch's construction of the chain (container filters, then service filters, then route filters, then the route function; error path runs container filters only), and of the net/http middleware adapter closure.",
  COMMON_ASSUME + "A-CB (callbacks do not reconfigure framework objects).",
- ["composition of the chain over unknown filters (lemma C06.chain is a meta-argument)", "concurrent interleavings"],
- "contract-based deductive verification (own VC generator over go/ssa, SMT)"),
+ ["composition of the chain over unknown filters is an induction over user code (meta-argument in DESIGN.md)", "concurrent interleavings"],
+ TECH),
 "C07": (True,
- "Deductive proof of wantsCompressedResponse (coding choice, skip when already encoded), NewCompressingResponseWriter (label set, compressor acquired and reset), CompressingResponseWriter.Close (release exactly once, representation invariant) and of dispatch's deferred Close on every exit.",
+ "Deductive proof of wantsCompressedResponse (coding choice, skip when the response is already encoded), NewCompressingResponseWriter (label set, compressor acquired and Reset onto the writer), CompressingResponseWriter Write/WriteHeader/Header forwarding, Close (release exactly once, representation invariant), and of dispatch's deferred Close on every exit and its treatment of the per-route override.",
  COMMON_ASSUME + "A-CODEC (gzip/zlib writer model), interface contract of CompressorProvider.",
- ["codec correctness (decode(encode(x)) == x)", "ServeHTTP/Handle entry points not yet under contract", "D14 (route override ignored via ServeHTTP)"],
- "contract-based deductive verification (own VC generator over go/ssa, SMT)"),
+ ["codec correctness (decode(encode(x)) == x) is a dependency property", "ServeHTTP/Handle entry points are not under contract", "D14 (route ContentEncodingEnabled(false) ignored when an outer writer already compresses) is an open known finding with a replayable witness"],
+ TECH),
 "C08": (True,
- "Deductive proof that isOriginAllowed answers true only for origins the configuration allows (whole-entry case-insensitive match, wildcard, predicate) and false for the empty origin, and of AddHeader's exact effect on the header map.",
- COMMON_ASSUME + "strings.ToLower uninterpreted (idempotent), A-PURE (origin predicate).",
- ["the Filter method itself (pass-through and grant clauses) is not yet under contract"],
- "contract-based deductive verification (own VC generator over go/ssa, SMT)"),
+ "Deductive proof that isOriginAllowed answers true only for origins the configuration allows (whole-entry case-insensitive match, wildcard, predicate) and false for the empty origin; of AddHeader's exact effect on the header map; and of CrossOriginResourceSharing.Filter: no CORS header unless the origin is allowed, Allow-Origin echoes the request origin verbatim exactly once, credentials only if configured, and without an allowed Origin the filter's whole effect is chain.ProcessFilter on untouched headers.",
+ COMMON_ASSUME + "strings.ToLower uninterpreted (idempotent), A-PURE (origin predicate), sync.Map/regexp compile of allowed-domain patterns over-approximated as harmless externals.",
+ ["regular-expression allowed domains beyond 'some entry matched' (regexp uninterpreted)"],
+ TECH),
+"C09": (True,
+ "Deductive proof that a preflight (OPTIONS with Access-Control-Request-Method from an allowed origin) is answered by the filter alone (no chain call), that doPreflightRequest grants only methods and headers the configuration or the container's routes allow (isValidAccessControlRequestMethod/-Header, computeAllowedMethods sound), and that a refused preflight writes no grant header.",
+ COMMON_ASSUME + "regexp.FindStringSubmatch trusted (A-JSR), A-PURE.",
+ ["completeness of the grant (every allowed method is granted) is not discharged", "computeAllowedMethods unions all services whose root matches while dispatch uses the best one (D8, documented)"],
+ TECH),
 "C10": (True,
- "Deductive proof over explicit exceptional edges that dispatch releases the services lock on every exit, closes an installed compressing writer on every exit, lets a panic escape only if recovery is off or the recover handler itself panicked.",
+ "Deductive proof over explicit exceptional edges that dispatch releases the services lock on every exit, closes an installed compressing writer on every exit, releases every compressor it acquired (ghost acquire/release counters balance on normal and exceptional exits), and lets a panic escape only if recovery is off or the recover handler itself panicked.",
  COMMON_ASSUME + "A-CB, A-CODEC, interface contracts at call sites.",
  ["panics inside net/http or the runtime", "ServeHTTP/Handle entry points"],
- "contract-based deductive verification (own VC generator over go/ssa, SMT), exceptional postconditions"),
+ TECH + ", exceptional postconditions"),
+"C11": (True,
+ "Deductive proof over a ghost model of net/http.ServeMux's pattern set that Container.Add registers exactly the patterns of the new service (root and root+'/', '/' once) and never registers a pattern twice, so it cannot panic inside net/http under the distinct-roots precondition (roots differing only by a trailing slash included), that Remove rebuilds a mux holding exactly the patterns of the remaining services, that addHandler's closure dispatches, and that WebService.Route/RemoveRoute/Routes keep the route list consistent with its lock.",
+ COMMON_ASSUME + "trusted model of ServeMux.HandleFunc/NewServeMux (pattern set; double registration panics), WebService.Path trusted.",
+ ["patterns registered through Container.Handle/HandleWithFilter are forgotten by Remove (D12, documented finding; repair needs a new field)", "ServeMux's own longest-pattern matching"],
+ TECH),
+"C12": (True,
+ "Deductive proof of lock discipline as guarded-by obligations: every read or write of Container.webServices/ServeMux and WebService.routes in the functions under contract happens with the declared lock held in the right mode, locks are balanced on every exit (including panics), and no function under contract acquires a lock it already holds.",
+ COMMON_ASSUME + "sync.RWMutex modelled as per-goroutine ghost state (not re-entrant); interference from other goroutines is havoc of guarded state while the lock is not held.",
+ ["real schedules and the Go memory model (a lock-discipline proof, not a race detector)", "exported fields users may touch without the lock"],
+ TECH + ", guarded-by obligations"),
 "C13": (True,
- "Deductive proof of the client side of compressor ownership: NewCompressingResponseWriter acquires exactly one compressor and resets it, Close releases it exactly once and refuses a second Close, under the provider interface contract (hands out only unheld objects).",
- COMMON_ASSUME + "interface contract of CompressorProvider (not yet proved for BoundedCachedCompressors), A-POOL.",
- ["real schedules", "sync.Pool internals", "non-blocking of BoundedCachedCompressors.Release* (D7)", "Request.ReadEntity"],
- "contract-based deductive verification (own VC generator over go/ssa, SMT)"),
+ "Deductive proof of compressor ownership: NewCompressingResponseWriter acquires exactly one compressor and Resets it; Close releases it exactly once and refuses a second Close; dispatch and Request.ReadEntity release everything they acquire on every exit (ghost counters); ReadEntity Resets the pooled reader onto the body before any read; BoundedCachedCompressors Acquire* return a fresh or pooled-and-unheld object and Release* never blocks (select with default) and only sends an object the caller held.",
+ COMMON_ASSUME + "A-POOL (channel model: receive yields an object some release sent), A-CODEC, SyncPoolCompessors (sync.Pool) not modelled; user callbacks cannot release the gzip reader ReadEntity holds.",
+ ["real schedules", "sync.Pool internals", "ReadEntity leaves Request.Body pointing at the released reader (D13, candidate only, sequentially benign)"],
+ TECH),
 "C14": (True,
- "Deductive proof of tokenizePath's contract (the only place the URL path enters the Curly pipeline) against the token oracle.",
+ "Deductive proof of tokenizePath against the token oracle plus the lemma C14.trailing-slash (the token sequence of p and of p+'/' are equal for every p, by general induction over the recursive Split/Trim models): everything the Curly pipeline derives from the path is a function of that token sequence; concatPath/postBuild/Build give the same tokens for roots and sub-paths with and without trailing slash.",
  COMMON_ASSUME + "models of strings.Split/Trim.",
- ["lemma tokens(p+'/') == tokens(p) not yet discharged", "RouterJSR311 half (regex semantics)"],
- "contract-based deductive verification (own VC generator over go/ssa, SMT)"),
+ ["RouterJSR311 half (regular-expression semantics)", "ServeMux redirect behaviour for trailing slashes"],
+ TECH + ", inductive lemmas"),
 "C15": (True,
- "Deductive proof that Response.Write adds exactly the count the underlying writer accepted and returns its results unchanged, that WriteHeader records and forwards the status once, and of StatusCode/ContentLength, over a ghost model of an arbitrary http.ResponseWriter.",
+ "Deductive proof that Response.Write adds exactly the count the underlying writer accepted and returns its results unchanged, that WriteHeader records and forwards the status once, of StatusCode/ContentLength, and that CompressingResponseWriter forwards Write/WriteHeader/Header to the right target, over a ghost model of an arbitrary http.ResponseWriter.",
  COMMON_ASSUME + "assumed contract of http.ResponseWriter (Write accepts a prefix; error-free Write accepts all).",
  ["WriteEntity/WriteAsJson/WriteError* paths (encoders are dependencies)", "lemma over call sequences"],
- "contract-based deductive verification (own VC generator over go/ssa, SMT)"),
+ TECH),
+"C16": (True,
+ "Deductive proof of the framework glue only: Request.ReadEntity acquires at most one pooled gzip reader, Resets it onto the request body before the entity reader is called (so no state of an earlier body survives), releases it on every exit, returns the zlib/lookup/decoder error instead of panicking, and looks accessors up without touching the registry; accessorAt is total.",
+ COMMON_ASSUME + "A-RT/A-CODEC: encoding/json, encoding/xml, compress/gzip and compress/zlib are dependencies (trusted: decode errors are returned, Reset forgets earlier state).",
+ ["write-then-read equality of values (a property of encoding/json and encoding/xml, not of this package)", "behaviour of the codecs on corrupt input"],
+ TECH),
+"C17": (True,
+ "Deductive proof that the Allow list attached to a 405 by detectRoute contains only methods of routes matching the path and no duplicates, that OPTIONSFilter answers OPTIONS alone with Allow equal to computeAllowedMethods and passes every other method through untouched, and that computeAllowedMethods is sound with respect to the container's routes.",
+ COMMON_ASSUME + "regexp.FindStringSubmatch trusted (A-JSR).",
+ ["completeness of the Allow list (every matching method listed)", "agreement between computeAllowedMethods (all matching roots) and dispatch (best root) — D8, documented"],
+ TECH),
 "C18": (True,
- "Deductive proof of the CurlyRouter half against the shared routing oracle (matcher, score, candidate set).",
+ "Deductive proof of the CurlyRouter half against the shared routing oracle (matcher, score, candidate set) and of the detectRoute stage both routers share.",
  COMMON_ASSUME + "A-VERB.",
- ["RouterJSR311 half and the agreement lemmas (A-JSR)", "D9 (ranking differs)"],
- "contract-based deductive verification (own VC generator over go/ssa, SMT)"),
+ ["RouterJSR311 path stage and the agreement lemma itself (A-JSR: meaning of compiled regular expressions)", "D9 (rankings differ: static tokens vs literal characters), documented"],
+ TECH),
+"C19": (True,
+ "Deductive frame proofs: each function under contract on the dispatch path changes only the locations in its modifies clause — route tables, Produces/Consumes slices, configuration and other requests' objects are untouched (selectRoutes, SelectRoute, Routes copies, ExtractParameters, NewRequest/NewResponse, wrapRequestResponse, dispatch, CORS Filter/doPreflightRequest, OPTIONSFilter, computeAllowedMethods).",
+ COMMON_ASSUME + "A-CB (callbacks change only the objects handed to them), typed heaps (no unsafe aliasing).",
+ ["functions not under contract", "concurrent interleavings"],
+ TECH + ", frame conditions"),
 }
 NA = {
-"C05": "engine stage not reached yet for sortedMimes/EntityWriter (float q-values, map iteration); matchesAccept is proved under C01",
-"C09": "Filter/doPreflightRequest are under contract but computeAllowedMethods needs the regexp model; not claimed until it is discharged",
-"C11": "Container.Add/Remove/addHandler contracts (ghost ServeMux) not yet written",
-"C12": "guarded-by obligations are generated but the mutators are not yet under contract",
-"C16": "Request.ReadEntity glue not yet under contract; codec round-trip is a dependency property (A-RT)",
-"C17": "computeAllowedMethods/OPTIONSFilter need the regexp model (A-JSR)",
-"C19": "frame obligations exist per function but the whole reachable set is not yet covered",
+"C05": "the deciding function Response.EntityWriter ranks by float q-values through three nested appends and falls back through a map-iterating substring lookup; the ranking contract of insertMime over Reals could not be discharged by any installed solver and the response Content-Type is set by the registered accessor (user code). matchesAccept (router side) is proved under C01; totality of sortedMimes/insertMime/accessorAt under C02/C16; D3 and D15 were found and fixed on the way. Not claimed.",
 }
 
 checks=[]
